@@ -215,6 +215,16 @@ Theorem C10_crop_skip :
   k' = (if skipped then k + 2 else k + 1).
 Proof. exact harvest_cursor_rule. Qed.
 
+(* tillage with automatic harvest (fixed sowing): a tillage dated before sowing keeps its date; a tillage due while the crop is in
+   the ground waits (+2 days) until the harvest is known and is then put on the day after the harvest — it never ends up inside
+   (sowing, harvest] *)
+Theorem C10_tillage_waits_for_harvest :
+  forall (z saat ernte einte : Z) (autohar : bool) (e' : Z),
+  till_adapt z saat ernte einte autohar = Some e' ->
+  einte <= e' /\ ~ (0 < saat /\ saat < e' /\ e' <= ernte) /\
+  (e' = einte \/ (e' = einte + 2 /\ z = einte /\ 0 < saat <= z /\ ernte = 0) \/ (e' = ernte + 1 /\ autohar = true /\ z <= ernte)).
+Proof. exact till_adapt_spec. Qed.
+
 (* regression examples (the former refutation witnesses, now carried out) *)
 Example C10_two_on_start_day_fire :
   fert_fired (rd_date (fert_read tt 100 tt (mk_lines [100; 100; 150]))) one_step 100 400
@@ -265,3 +275,4 @@ Print Assumptions C10_payload_org.
 Print Assumptions C10_payload_org_amounts.
 Print Assumptions C10_org_after_harvest_once.
 Print Assumptions C10_crop_skip.
+Print Assumptions C10_tillage_waits_for_harvest.
